@@ -40,8 +40,22 @@ Definition enc_out (o : outp) : sx :=
 
 Definition enc_reg (r : Mux.reg) : sx := zl [Mux.r_start r; Mux.r_stop r].
 
+(* second case shape: the Output register alone, L [A 1; A pins; L [L [w_stb; w_data; set; clr] ...]]
+   result L [A 1; L [L [A r_data; L data bits] per cycle]] *)
+Definition dec_oreg (s : sx) : option oreg_in :=
+  match getZL s with
+  | Some [w; d; st; cl] => Some {| q_wstb := z2b w; q_wdata := d; q_set := st; q_clr := cl |}
+  | _ => None
+  end.
+
 Definition run_gpio (s : sx) : sx :=
   match s with
+  | L [A 1; A n; L cycles] =>
+      match mapM dec_oreg cycles with
+      | Some is => L [A 1; L (map (fun o => L [A (fst o); zl (map b2z (snd o))])
+                                  (oreg_run (repeat false (Z.to_nat n)) is))]
+      | None => bad 2
+      end
   | L [p; L cycles] =>
       match dec_params p, mapM dec_bus cycles with
       | Some pa, Some bs =>
